@@ -6,7 +6,7 @@ from .values import _byte_type
 from .sym import (TRUE, FALSE, RS, IS, zand, zor, znot, zimp, State, Frame, HeapLV)
 from .expr import ERR_TAG
 
-SPEC_FUNCS = ("zzRecv", "zzArg", "zzRet", "zzSeq", "zzCalls", "zzStrIsBytes", "zzSameStr", "zzDisjoint", "zzDisjointStr", "zzOld", "zzImp", "zzForall", "zzExists", "zzResult", "zzIter", "zzFresh", "zzAlloc", "zzSameSlice", "zzNilErr", "zzLen")
+SPEC_FUNCS = ("zzArmedCtx", "zzArmedChan", "zzRecv", "zzArg", "zzRet", "zzSeq", "zzCalls", "zzStrIsBytes", "zzSameStr", "zzDisjoint", "zzDisjointStr", "zzOld", "zzImp", "zzForall", "zzExists", "zzResult", "zzIter", "zzFresh", "zzAlloc", "zzSameSlice", "zzNilErr", "zzLen")
 
 
 class CallMixin:
@@ -327,6 +327,8 @@ class CallMixin:
                 return z3.UGE(v.oid, rid(base))
             if isinstance(v, IfaceV):
                 return z3.UGE(v.oid, rid(base))
+            if isinstance(v, OpaqueV):
+                return z3.UGE(v.term, rid(base))
             raise Unsupported("fresh() of this value")
         if name in ("zzArg", "zzRet", "zzSeq", "zzRecv"):
             lit = args[0]["cv"]["v"]
@@ -367,6 +369,16 @@ class CallMixin:
             zero = z3.BitVecVal(0, 64)
             self.events_named.add(nm)
             return (cur if cur is not None else zero) - (old_ if old_ is not None else zero)
+        if name == "zzArmedCtx":
+            v = self.ev(args[0], st)
+            arr = st.ghost.get("armedctx")
+            return z3.Select(arr, v.oid) if arr is not None else FALSE
+        if name == "zzArmedChan":
+            v = self.ev(args[0], st)
+            arr = st.ghost.get("armedch")
+            if not isinstance(v, OpaqueV):
+                raise Unsupported("zzArmedChan of this value")
+            return z3.Select(arr, v.term) if arr is not None else FALSE
         if name == "zzStrIsBytes":
             a = self.ev(args[0], st)
             b = self.ev(args[1], st)
@@ -738,6 +750,17 @@ class CallMixin:
             self.assume(st, g)
             if cl["kind"] == "trusts":
                 self.assumptions.add("trusted (unproved) postcondition of %s: %s" % (self.prog.short(f.full), cl["text"]))
+        if not self.spec:
+            shortf = self.prog.short(f.full)
+            for ri, (rv_, rt_) in enumerate(zip(results, rtypes)):
+                try:
+                    terms_ = flatten(rv_, rt_)
+                except Unsupported:
+                    continue
+                if ri == 0:
+                    for k_, tm in enumerate(terms_):
+                        post.ghost["ret:%s:%d" % (shortf, k_)] = tm
+                    self.arg_types[(shortf, "ret")] = rt_
         st.mem, st.heap, st.ghost = post.mem, post.heap, post.ghost
         self.called_contracts.add(f.full)
         if len(results) == 1:
@@ -1055,6 +1078,11 @@ class CallMixin:
         cur = st.ghost.get(key)
         if cur is None:
             cur = z3.BitVecVal(0, 64)
+        if name.startswith("select.arm:"):
+            # wait-set markers are set-once (a select in a loop re-arms the same communications)
+            st.ghost[key] = z3.BitVecVal(1, 64)
+            self.events_seen.add(name)
+            return
         st.ghost[key] = cur + z3.BitVecVal(1, 64)
         clk = st.ghost.get("clock")
         if clk is None:
@@ -1098,6 +1126,43 @@ class CallMixin:
             return v, self.fresh("recvok", z3.BoolSort())
         return v
 
+    def record_armed(self, st, tgt):
+        """The set of contexts (through ctx.Done()) and channels a select of this call waits on, by value."""
+        if self.spec:
+            return
+        try:
+            if tgt.get("k") == "CallExpr" and (tgt.get("callee") or "").endswith("context.(Context).Done"):
+                cx = self.ev(tgt["Fun"]["X"], st)
+                arr = st.ghost.get("armedctx")
+                if arr is None:
+                    arr = z3.K(RS, FALSE)
+                st.ghost["armedctx"] = z3.Store(arr, cx.oid, TRUE)
+                return
+            if tgt.get("k") not in ("Ident", "SelectorExpr"):
+                return
+            v = self.ev(tgt, st)
+            if isinstance(v, OpaqueV) and v.term.sort() == RS:
+                arr = st.ghost.get("armedch")
+                if arr is None:
+                    arr = z3.K(RS, FALSE)
+                st.ghost["armedch"] = z3.Store(arr, v.term, TRUE)
+        except (Unsupported, KeyError, AttributeError):
+            pass
+
+    def expr_text(self, e):
+        k = e.get("k")
+        if k == "Ident":
+            return e.get("Name", "?")
+        if k == "SelectorExpr":
+            return self.expr_text(e["X"]) + "." + e["Sel"]["Name"]
+        if k == "CallExpr":
+            return self.expr_text(e["Fun"]) + "()"
+        if k == "ParenExpr":
+            return self.expr_text(e["X"])
+        if k == "StarExpr":
+            return "*" + self.expr_text(e["X"])
+        return "?"
+
     def chan_invariant(self, et):
         """Spec function zzChanInv_<ElemType>(v) of the element type's package, if the contract file declares one."""
         nm = et.name() if et.k == "named" else None
@@ -1137,6 +1202,23 @@ class CallMixin:
         outs = []
         clauses = s["Body"]["List"]
         choice = self.fresh("select", IS)
+        # every communication of an executed select is armed at once: record what the call waits on
+        for cc in clauses:
+            comm = cc.get("Comm")
+            if comm is None:
+                self.trace_event(st, "select.arm:default")
+                continue
+            tgt = None
+            if comm["k"] == "SendStmt":
+                tgt = comm["Chan"]
+            elif comm["k"] == "ExprStmt" and comm["X"].get("k") == "UnaryExpr":
+                tgt = comm["X"]["X"]
+            elif comm["k"] == "AssignStmt" and comm["Rhs"] and comm["Rhs"][0].get("k") == "UnaryExpr":
+                tgt = comm["Rhs"][0]["X"]
+            if tgt is not None:
+                self.trace_event(st, "select.arm:" + self.expr_text(tgt))
+                self.trace_event(st, "select.arm:any")
+                self.record_armed(st, tgt)
         for k, cc in enumerate(clauses):
             cst = st.fork(zand(st.pc, choice == idx(k)))
             comm = cc.get("Comm")
